@@ -17,7 +17,8 @@ LEVEL = "model_checking"
 
 def configs(tier):
     # LocalId = 2 with remote ids {1,2,3}: lower, equal, higher (3 has the top bit set).
-    cs = [("id2h90", fsmlib.consts(2, [1, 2, 3], 90, [30]))]
+    # remote hold times 30 and 0: the negotiated hold time is zero in half of the OPENs (no timers run from then on)
+    cs = [("id2h90", fsmlib.consts(2, [1, 2, 3], 90, [0, 30]))]
     if tier == "thorough":
         cs += [
             ("id2h90all", fsmlib.consts(2, [1, 2, 3], 90, [0, 3, 30, 65535])),
@@ -131,8 +132,10 @@ def main(c):
         "pi reads Connection.{state,remote_id,negotiated_holdtime,keepalive_interval} of both slots; the remaining "
         "fields are write-once configuration or only copied into SessionEstablished",
         "OPENs rejected by the parser (bad identifier, hold time 1-2, version) never reach PeerFsm; that path is the "
-        "driver's and is exercised by the C10 session_loop harness",
+        "driver's: spec/Teardown on real connections (below)",
     ]
+    import drvlib
+    drvlib.teardown(c)
     if c.tier == "thorough":
         k = fsmlib.consts(2, [1, 2, 3], 90, [0, 3, 30, 65535])
         ns, nrec = trace_validate(c, k, nseq=200, length=300, name="t1")
